@@ -224,11 +224,16 @@ Fixed ==
     [s |-> "git::https://", e |-> "any"], [s |-> "https://example.com/x.tgz//", e |-> "any"], [s |-> "https://example.com//x.tgz", e |-> "any"],
     [s |-> "@", e |-> "any"], [s |-> "a@b", e |-> "any"], [s |-> "github.com/", e |-> "any"], [s |-> "github.com//", e |-> "any"],
     [s |-> "https://example.com/x.tgz?%zz", e |-> "any"], [s |-> "https://[::1/x.tgz", e |-> "any"], [s |-> "https://example.com/x.tgz#", e |-> "any"],
+    \* hosts outside ASCII: the replayer spells "unihost" with non-ASCII letters (TLA+ strings are ASCII)
+    [s |-> "git::https://unihost.example.com/x.git", e |-> "any"], [s |-> "https://unihost.example.com/x.tgz//sub", e |-> "any"],
+    [s |-> "unihost.example.com/ns/name/sys", e |-> "any"], [s |-> "unihost.example.com/ns/name/sys//sub", e |-> "any"],
+    [s |-> "EXAMPLE.com/ns/name/sys", e |-> "any"], [s |-> "git::ssh://git@unihost.example.com/x.git?ref=v1", e |-> "any"],
     [s |-> "../", e |-> "any"], [s |-> ".//", e |-> "any"], [s |-> "./.", e |-> "reject"], [s |-> "hashicorp/subnets/cidr//", e |-> "any"] }
 FixedFinal ==
   { [s |-> "example.com/ns/name/sys@1.2.3", e |-> "accept"], [s |-> "example.com/ns/name/sys@1.2.3//sub", e |-> "accept"],
     [s |-> "hashicorp/subnets/cidr@1.0.0-beta.1", e |-> "accept"], [s |-> "example.com/ns/name/sys@1.x", e |-> "reject"],
     [s |-> "example.com/ns/name/sys@", e |-> "reject"], [s |-> "example.com/ns/name/sys@1.2.3//..", e |-> "reject"],
+    [s |-> "unihost.example.com/ns/name/sys@1.2.3", e |-> "any"], [s |-> "EXAMPLE.com/ns/name/sys@1.2.3//sub", e |-> "any"],
     [s |-> "git::https://example.com/r.git//a@1.2.3/b", e |-> "any"], [s |-> "./a@1.0.0", e |-> "any"] }
 FixedCase(x, route) == [fam |-> "addr", op |-> "parse", route |-> route, s |-> x.s, expect |-> x.e, rec |-> [kind |-> "unpredicted"], policy |-> TRUE, kf06 |-> ""]
 
